@@ -244,5 +244,89 @@ theorem get_take_writeFile_note (base key : String) (chunks : List String) (d : 
     · simp [touched] at hq; exact hne hq.symm
     · simp [touched] at hq; exact hne hq.symm
 
+/-! ### the error branch: `writeFileFailing` -/
+
+/-- the steps before the `rename` do not change the note -/
+theorem get_take_writeFile_note_old (base key : String) (chunks : List String) (d : Disk) (k : Nat)
+    (hne : tmpPath base key ≠ notePath base key) (hk : k ≤ chunks.length + 1) :
+    get (run d ((writeFile true base key chunks).take k)) (notePath base key)
+      = get d (notePath base key) := by
+  apply get_run_of_not_touched
+  intro s hs hq
+  have hk' : k ≤ ([Step.openTrunc (tmpPath base key)]
+      ++ chunks.map (Step.append (tmpPath base key))).length := by
+    simp
+    omega
+  simp only [writeFile, if_true] at hs
+  rw [List.take_append_of_le_length hk'] at hs
+  have hs' := List.mem_of_mem_take hs
+  simp only [List.mem_append, List.mem_singleton, List.mem_map] at hs'
+  rcases hs' with rfl | ⟨c, _, rfl⟩
+  · simp [touched] at hq; exact hne hq.symm
+  · simp [touched] at hq; exact hne hq.symm
+
+theorem touched_writeFileFailing {base key : String} {chunks : List String} {k : Nat} {s : Step}
+    (hs : s ∈ writeFileFailing base key chunks k) {q : Path} (hq : q ∈ touched s) :
+    q = notePath base key ∨ q = tmpPath base key := by
+  unfold writeFileFailing at hs
+  by_cases hk : k ≤ chunks.length
+  · simp only [if_pos hk, List.mem_append, List.mem_singleton] at hs
+    rcases hs with hs | rfl
+    · exact touched_writeFile (List.mem_of_mem_take hs) hq
+    · simp [touched] at hq; exact Or.inr hq
+  · simp only [if_neg hk] at hs
+    exact touched_writeFile (List.mem_of_mem_take hs) hq
+
+/-- frame lemma for a failing `writeFile` -/
+theorem get_run_writeFileFailing_frame (base key : String) (chunks : List String)
+    (d : Disk) (k : Nat) (p : Path) (hn : p ≠ notePath base key) (ht : p ≠ tmpPath base key) :
+    get (run d (writeFileFailing base key chunks k)) p = get d p := by
+  apply get_run_of_not_touched
+  intro s hs hq
+  rcases touched_writeFileFailing hs hq with h | h
+  · exact hn h
+  · exact ht h
+
+/-- `k` past the last step: the failing write is the complete write -/
+theorem writeFileFailing_of_length_lt (base key : String) (chunks : List String) (k : Nat)
+    (hk : chunks.length + 1 < k) :
+    writeFileFailing base key chunks k = writeFile true base key chunks := by
+  unfold writeFileFailing
+  have h1 : ¬ k ≤ chunks.length := by omega
+  simp only [if_neg h1]
+  apply List.take_of_length_le
+  simp [writeFile]
+  omega
+
+theorem touched_writeStoreFailing {base : String} {store : List (String × List String)} {i k : Nat}
+    {s : Step} (hs : s ∈ writeStoreFailing base store i k) {q : Path} (hq : q ∈ touched s) :
+    ∃ e ∈ store, q = notePath base e.1 ∨ q = tmpPath base e.1 := by
+  induction store generalizing i with
+  | nil => simp [writeStoreFailing] at hs
+  | cons e rest ih =>
+    obtain ⟨key, chunks⟩ := e
+    cases i with
+    | zero =>
+      simp only [writeStoreFailing] at hs
+      exact ⟨(key, chunks), List.mem_cons_self, touched_writeFileFailing hs hq⟩
+    | succ i =>
+      simp only [writeStoreFailing, List.mem_append] at hs
+      rcases hs with hs | hs
+      · exact ⟨(key, chunks), List.mem_cons_self, touched_writeFile hs hq⟩
+      · obtain ⟨e, he, h⟩ := ih hs
+        exact ⟨e, List.mem_cons_of_mem _ he, h⟩
+
+/-- frame lemma for a store run with a failing note -/
+theorem get_run_writeStoreFailing_frame (base : String) (store : List (String × List String))
+    (i k : Nat) (d : Disk) (p : Path)
+    (hp : ∀ e ∈ store, p ≠ notePath base e.1 ∧ p ≠ tmpPath base e.1) :
+    get (run d (writeStoreFailing base store i k)) p = get d p := by
+  apply get_run_of_not_touched
+  intro s hs hq
+  obtain ⟨e, he, h⟩ := touched_writeStoreFailing hs hq
+  rcases h with h | h
+  · exact (hp e he).1 h
+  · exact (hp e he).2 h
+
 end Fs
 end Iwe
